@@ -768,6 +768,254 @@ def run_semantic(res, tier, rnd):
     return stats
 
 
+
+# ====================================================================== family 4: chains / trees of typedefs over a faulty one
+# Third sentence again, for the case the single-fault sets above hardly reach: the statement at fault stands inside a typedef
+# that OTHER typedefs (and leaves) are based on, directly or through further typedefs, so the resolver meets the same broken
+# typedef many times (once per user, in the order resolveTypedefs / ToEntry walk them: sorted by module name + node path).
+# However often and in whatever order it is met, every file:line:col in every error of every step must be the start of a
+# statement whose name or value is bad -- here exactly the marked statement(s); a `typedef` or a sound `type T;` statement
+# further up the chain is not at fault.  Resolver errors carry no position in the Coq models, so this is an oracle on the
+# implementation (harness command c16hist: loads, Process and ToEntry-without-Process steps on one Modules value).
+CHAIN_FAULTS = [
+    # (label, class, type part of the faulty typedef, sound typedef it restricts or None)
+    ("unknown-type", "type", "@@type nosuch;", None),
+    ("unknown-type-own-prefix", "type", "@@type {P}:nosuch;", None),
+    ("unknown-prefix", "type", "@@type zz:t;", None),
+    ("range-builtin", "range", 'type uint8 { @@range "1..300"; }', None),
+    ("range-order", "range", 'type int32 { @@range "5..1"; }', None),
+    ("range-syntax", "range", 'type int8 { @@range "1..x"; }', None),
+    ("range-second-part", "range", 'type int8 { @@range "1..5 | 7..x"; }', None),
+    ("length-order", "length", 'type string { @@length "5..1"; }', None),
+    ("length-negative", "length", 'type binary { @@length "-1..2"; }', None),
+    ("enum-duplicate", "enum", "type enumeration { enum a; @@enum a; }", None),
+    ("enum-value-conflict", "enum", "type enumeration { enum a { value 1; } @@enum b { value 1; } }", None),
+    ("enum-value-syntax", "enum", "type enumeration { enum z; @@enum a { value x; } }", None),
+    ("bit-duplicate", "enum", "type bits { bit a; @@bit a; }", None),
+    ("fraction-digits-missing", "type", "@@type decimal64;", None),
+    ("fraction-digits-19", "type", "@@type decimal64 { fraction-digits 19; }", None),
+    ("identityref-no-base", "type", "@@type identityref;", None),
+    ("union-member", "type", "type union { type string; @@type nosuch; }", None),
+    ("restrict-range", "range", 'type {BASE} { @@range "0..20"; }', 'type int8 { range "1..10"; }'),
+    ("restrict-length", "length", 'type {BASE} { @@length "2..9"; }', 'type string { length "1..4"; }'),
+    ("restrict-fraction-digits", "type", "@@type {BASE} { fraction-digits 3; }", "type decimal64 { fraction-digits 2; }"),
+]
+# how a typedef / leaf names the typedef it is based on ({T} with prefix where one is needed)
+CHAIN_LINKS = ["type {T};", "type {T};", "type {T} { }", "type union { type string; type {T}; }", "type union { type {T}; type int8; }",
+               "type union { type {T}; type {T}; }", "type union { type union { type {T}; } }"]
+# sorted pools the typedef names are drawn from in random order: resolveTypedefs goes by module name + node path, so whether a
+# user comes before or after the typedef it is based on is a matter of the names (upper case < lower case, t10 < t2, - < . < _)
+CHAIN_NAME_POOLS = [["alpha", "beta", "delta", "epsilon", "gamma", "zeta"], ["t1", "t10", "t2", "t20", "t3", "t9"],
+                    ["A", "B", "Z", "a", "b", "z"], ["a-b", "a.b", "a_b", "ab", "b", "b-"], ["c0", "d", "n0", "o", "zz0", "zzz"]]
+CHAIN_OPS = ["P", "P", "P", "P,P", "E", "E,E", "E,P", "P,E", "P,E,P"]
+
+
+def chain_noise(rnd, counter):
+    counter[0] += 1
+    r = rnd.random()
+    if r < 0.45:
+        return " "
+    if r < 0.75:
+        return rnd.choice(SEM_GAPS)
+    return ' leaf zq%d { type string; description "é %d\n\t two\r\n   three"; }%s' % (counter[0], counter[0], rnd.choice(SEM_GAPS))
+
+
+def gen_chain_case(rnd, counter, faults, k=None, perm=None, simple=False, pool=None):
+    """one module set: a forest of typedefs, every root of it faulty in its own `type` statement (marked), every other typedef
+    based on an earlier one; leaves / leaf-lists next to some of them; in one or two modules, at module level or nested.
+    -> (label, files [(name, text)], markers {(name, line, col)}, ops)"""
+    nroots = len(faults)
+    k = k or rnd.choice([1, 2, 2, 3, 3, 4, 5])
+    k = max(k, nroots)
+    pool = pool or rnd.choice(CHAIN_NAME_POOLS)
+    if perm is not None:
+        names = [pool[i] for i in perm]
+    elif k <= len(pool):
+        names = rnd.sample(pool, k)
+    else:
+        names = rnd.sample(pool, len(pool)) + ["x%d" % i for i in range(k - len(pool))]
+    chain = simple or rnd.random() < 0.5
+    parent = [None] * nroots + [(i - 1 if chain and nroots == 1 else rnd.randrange(i)) for i in range(nroots, k)]
+    two = (not simple) and rnd.random() < 0.35
+    mods = rnd.choice([["a", "m"], ["m", "a"], ["b2", "a"], ["a", "b2"]])
+    pfx = {m: rnd.choice(["%s", "p%s", "%s-x"]) % m for m in mods}           # own prefix of each module
+    ipfx = rnd.choice(["%s", "i%s"]) % mods[0]                                # prefix mods[1] imports mods[0] under
+    nestkw = [rnd.choice(["container", "container", "list", "grouping"]) for _ in range(3)]
+    nestname = rnd.choice(["c%d", "n%d", "zz%d", "B%d"])
+    fileof, level = [], []
+    for i in range(k):
+        p = parent[i]
+        if p is None:
+            fileof.append(0)
+            level.append(0 if simple else rnd.choice([0, 0, 0, 1, 2]))
+        elif fileof[p] == 0 and level[p] == 0 and two and rnd.random() < 0.6:
+            fileof.append(1)
+            level.append(rnd.choice([0, 0, 1, 2]))
+        else:
+            fileof.append(fileof[p])
+            level.append(level[p] if simple else min(3, level[p] + rnd.choice([0, 0, 1])))
+    used_files = sorted(set(fileof))
+
+    def ref(i, frm):
+        """how a statement in file frm names typedef i"""
+        if fileof[i] != frm:
+            return ipfx + ":" + names[i]
+        return names[i] if rnd.random() < 0.7 else pfx[mods[frm]] + ":" + names[i]
+
+    items = {}          # (file, level) -> statements
+    for i in range(k):
+        f, lv = fileof[i], level[i]
+        if parent[i] is None:
+            label, cls, tmpl, base = faults[i]
+            bn = rnd.choice(["aa%d", "zy%d", "M%d"]) % i
+            tpart = tmpl.replace("{P}", pfx[mods[f]]).replace("{BASE}", bn)
+            if base is not None:
+                items.setdefault((f, 0), []).append("typedef %s { %s }" % (bn, base))
+        else:
+            tpart = rnd.choice(CHAIN_LINKS).replace("{T}", ref(parent[i], f))
+        extra = rnd.choice(["", "", 'description "é\n\ttwo"; ', "units x; "])
+        tail = rnd.choice(["", "", ' reference "d";', " default 1;"]) if parent[i] is not None or "nosuch" in tpart else ""
+        items.setdefault((f, lv), []).append("typedef %s { %s%s%s }" % (names[i], extra, tpart, tail))
+        for u in range(0 if simple else rnd.choice([0, 0, 1, 1, 2, 3])):
+            counter[0] += 1
+            t = rnd.choice(CHAIN_LINKS).replace("{T}", ref(i, f))
+            items[(f, lv)].append(rnd.choice(["leaf u%d { %s }", "leaf-list u%d { %s }", "leaf u%d { %s mandatory true; }",
+                                              "container w%d { leaf x { %s } }"]) % (counter[0], t))
+    files, markers = [], set()
+    for f in used_files:
+        maxlv = max(lv for (ff, lv) in items if ff == f)
+
+        def body(lv):
+            its = list(items.get((f, lv), []))
+            rnd.shuffle(its)
+            if lv < maxlv:
+                inner = body(lv + 1)
+                kw, nm = nestkw[lv], nestname % lv
+                head = "key k; leaf k { type string; }" if kw == "list" else ""
+                its.insert(rnd.randrange(len(its) + 1), "%s %s {%s%s%s}" % (kw, nm, chain_noise(rnd, counter), head, inner))
+            return "".join(chain_noise(rnd, counter) + s for s in its) + chain_noise(rnd, counter)
+
+        m = mods[f]
+        imp = "import %s { prefix %s; }" % (mods[0], ipfx) if f == 1 else ""
+        text = 'module %s {%snamespace "urn:%s"; prefix %s; %s%s}%s' % (m, rnd.choice(SEM_GAPS), m, pfx[m], imp, body(0),
+                                                                       rnd.choice(["", "\n", "\r\n"]))
+        files.append([m + ".yang", text])
+    pat = "%s" if (simple or rnd.random() < 0.5) else rnd.choice(SEM_NAMES[1:])
+    out = []
+    for n, text in files:
+        n = pat % n
+        parts = text.split("@@")
+        acc = parts[0]
+        for part in parts[1:]:
+            acc += "".join(rnd.choice(SEM_GAPS) for _ in range(rnd.choice([0, 0, 1, 1, 2, 3])))
+            markers.add((n,) + linecol(acc, len(acc)))
+            acc += part
+        out.append((n, acc))
+    order = list(range(len(out)))
+    rnd.shuffle(order)
+    ops = ",".join("L%d" % i for i in order) + "," + ("P" if simple else rnd.choice(CHAIN_OPS))
+    label = "+".join(f[0] for f in faults) + ":k=%d%s%s" % (k, ":two-files" if len(out) > 1 else "", ":nested" if max(level) else "")
+    return label, out, markers, ops
+
+
+def chain_case_line(ops, files):
+    return "c16hist %s %d %s" % (ops, len(files), " ".join("%s %s" % (hx(n), hx(t)) for n, t in files))
+
+
+def check_chain_output(o, fs, markers, stmts):
+    """-> (list of (what, message) complaints, number of positions checked, number of positions equal to a marker).
+    stmts: file name -> statement list [(keyword, line, col)] or None"""
+    bad, checked, hit = [], 0, 0
+    try:
+        j = json.loads(o)
+    except ValueError:
+        return [("harness did not answer: %s" % o[:200], "")], 0, 0
+    names = {n for n, _ in fs}
+    groups = [("load", [l[5:] for l in j.get("loads", []) if l.startswith("err: ")])]
+    if groups[0][1]:
+        # the generated modules are sound for the builder: the one fault is for the resolver
+        bad.append(("Modules.Parse rejects a module of the set (the fault injected is a resolver fault)", groups[0][1][0]))
+    groups += [("step %d (%s)" % (i + 1, {"P": "Process", "E": "ToEntry"}.get(st.get("op"), "?")), st.get("errors", []))
+               for i, st in enumerate(j.get("steps", []))]
+    for where, msgs in groups:
+        for msg in msgs:
+            mcls, _ = classify(msg)
+            for m in LINECOL.finditer(msg):
+                ln, cl = int(m.group(1)), int(m.group(2))
+                checked += 1
+                pre = msg[:m.start()]
+                cands = [n for n in names if pre.endswith(n)]
+                if not cands:
+                    bad.append(("%s: line:col %d:%d is not preceded by the name of a loaded file %r" % (where, ln, cl, sorted(names)), msg))
+                    continue
+                fn = max(cands, key=len)
+                if stmts.get(fn) is None:
+                    continue
+                here = [k for k, l2, c2 in stmts[fn] if (l2, c2) == (ln, cl)]
+                if not here:
+                    bad.append(("%s: error position %s:%d:%d is not the start of any statement of that file" % (where, fn, ln, cl), msg))
+                    continue
+                if (fn, ln, cl) in markers:
+                    hit += 1
+                    if mcls in CLASS_KEYWORDS and here[0] not in CLASS_KEYWORDS[mcls]:
+                        bad.append(("%s: a %s error is reported at a %r statement (%s:%d:%d)" % (where, mcls, here[0], fn, ln, cl), msg))
+                    continue
+                bad.append(("%s: the error names %s:%d:%d, a %r statement that is not at fault; the only statement(s) whose name or value "
+                            "is bad: %s" % (where, fn, ln, cl, here[0], ", ".join("%s:%d:%d" % mk for mk in sorted(markers))), msg))
+    return bad, checked, hit
+
+
+def run_typedef_chains(res, tier, rnd):
+    counter = [0]
+    built = []
+    # systematic: every fault x every order of 2 and of 3 names (the chain root < user, user < root, every interleaving), at
+    # module level, one Process
+    for fault in CHAIN_FAULTS:
+        for k in (2, 3):
+            for perm in itertools.permutations(range(k)):
+                built.append(gen_chain_case(rnd, counter, [fault], k=k, perm=perm, simple=True, pool=CHAIN_NAME_POOLS[0]))
+    # chains of 1 .. 6 links under every name pool
+    for pool in CHAIN_NAME_POOLS:
+        for k in range(1, 7):
+            built.append(gen_chain_case(rnd, counter, [rnd.choice(CHAIN_FAULTS)], k=k, perm=list(range(k)), simple=True, pool=pool))
+            built.append(gen_chain_case(rnd, counter, [rnd.choice(CHAIN_FAULTS)], k=k, perm=list(range(k))[::-1], simple=True, pool=pool))
+    # random forests: trees instead of chains, nesting, two modules, leaves, two faulty roots, histories of Process / ToEntry steps
+    n = 700 if tier == "quick" else 12000
+    for i in range(n):
+        faults = [rnd.choice(CHAIN_FAULTS)] if i % 5 else [rnd.choice(CHAIN_FAULTS), rnd.choice(CHAIN_FAULTS)]
+        built.append(gen_chain_case(rnd, counter, faults))
+    lines = [chain_case_line(ops, fs) for _, fs, _, ops in built]
+    out = lib.run_go(lines)
+    texts = sorted({t for _, fs, _, _ in built for _, t in fs})
+    fobs = dict(zip(texts, lib.run_go(["parse " + hx(t) for t in texts])))
+    stats = dict(cases=len(built), positions_checked=0, positions_at_marked_statement=0, cases_with_positions=0, unparsable_files=0,
+                 by_ops={}, by_links={}, two_files=0, nested=0, violations=0)
+    for (label, fs, markers, ops), line, o in zip(built, lines, out):
+        stmts = {}
+        for nme, t in fs:
+            stmts[nme] = parse_forest(fobs[t])
+            if stmts[nme] is None:
+                stats["unparsable_files"] += 1
+        bad, checked, hit = check_chain_output(o, fs, markers, stmts)
+        stats["positions_checked"] += checked
+        stats["positions_at_marked_statement"] += hit
+        stats["cases_with_positions"] += 1 if checked else 0
+        op = ops.split(",", len(fs))[-1]
+        stats["by_ops"][op] = stats["by_ops"].get(op, 0) + 1
+        kk = re.search(r":k=(\d+)", label).group(1)
+        stats["by_links"][kk] = stats["by_links"].get(kk, 0) + 1
+        stats["two_files"] += 1 if len(fs) > 1 else 0
+        stats["nested"] += 1 if ":nested" in label else 0
+        if bad:
+            stats["violations"] += 1
+            if stats["violations"] <= 3:
+                what, msg = bad[0]
+                res.violation("typedef chain [%s, ops %s]: %s: %s" % (label, ops, what, msg[:300]),
+                              dict(kind="typedef-chain", label=label, files=[[n2, t] for n2, t in fs], go_case=line,
+                                   markers=[list(mk) for mk in sorted(markers)], message=msg, complaints=[w for w, _ in bad][:8]))
+    return stats
+
+
 POS = re.compile(r",(-?\d+),(-?\d+);")
 
 
@@ -805,6 +1053,7 @@ def run(res, tier, seed, proof):
     sem = run_semantic(res, tier, random.Random(seed + 1))
     longl = run_long_lines(res, tier)
     front = c16front.run_leg(res, tier, random.Random(seed + 2))
+    chains = run_typedef_chains(res, tier, random.Random(seed + 3))
     distinct = len(set(cases))
     nontriv = len({c for c, g in zip(cases, go) if (g.startswith("ok (") or (g.startswith("err") and ":" in g))})
     pick = [i for i, k in enumerate(kinds) if k in ("well-formed", "fault:bad-escape", "fault:extra-close")]
@@ -821,13 +1070,17 @@ def run(res, tier, seed, proof):
                     "missing import / include; one or several files); every file:line:col anywhere in a Modules.Parse or Process error must be "
                     "a statement start of a loaded file, of the right kind for the message, and for the classes the property lists exactly "
                     "the marked faulty statement" % (4 if tier == "quick" else 5, len(FAULTS), len(SEM_CASES)),
-               mismatches=mism, model_out_of_fuel=oof, builder_errors_from_text=front, semantic_error_positions=sem, long_lines=longl, invalid_utf8=dict(cases=len(ib), mismatches=ibad), statement_positions_compared=npos, error_positions_compared=nerrpos,
+               mismatches=mism, model_out_of_fuel=oof, builder_errors_from_text=front, semantic_error_positions=sem, typedef_chain_error_positions=chains, long_lines=longl, invalid_utf8=dict(cases=len(ib), mismatches=ibad), statement_positions_compared=npos, error_positions_compared=nerrpos,
                distribution=dict(kind_by_outcome=dist, error_lists=errclasses),
                samples=[cases[i] for i in sample_idx], sample_observations=[go[i] for i in sample_idx])
     return cov, ["UTF-8 decoding (utf8.DecodeRuneInString; invalid byte => U+FFFD of width 1) is done by the harness as Go does it and "
                  "is modelled, not verified; the file name in a position is the path argument copied verbatim and is not modelled; "
                  "positions in errors from building/resolving modules (semantic errors) are statement positions covered by C03 and the "
-                 "resolver properties, not by this check"]
+                 "resolver properties, not by this check; positions in RESOLVER errors (unknown type / uses, bad range / length / enum ..., "
+                 "incl. the typedef-chain family: a faulty typedef other typedefs and leaves are based on, resolved in every order, over "
+                 "histories of Process and ToEntry steps) are outside the Coq models (resolver errors carry no position there): they are "
+                 "decided by an oracle on the implementation that checks the property's text directly -- every file:line:col of every "
+                 "error is a statement start of a loaded file and is (one of) the marked statement(s) whose name or value is bad"]
 
 
 def replay(rep, res):
@@ -842,6 +1095,21 @@ def replay(rep, res):
         print("impl :", o[:1500])
         print("was  :", rep.get("what"))
         return 1
+    if rep.get("kind") == "typedef-chain":
+        fs = [(n, t) for n, t in rep["files"]]
+        o = lib.run_go([rep["go_case"]])[0]
+        stmts = {}
+        print("files:")
+        for n, t in fs:
+            print("  %s: %r" % (n, t))
+            stmts[n] = parse_forest(lib.run_go(["parse " + hx(t)])[0])
+        markers = {tuple(mk) for mk in rep.get("markers", [])}
+        print("statement(s) at fault:", ", ".join("%s:%d:%d" % mk for mk in sorted(markers)))
+        print("impl :", o[:2000])
+        bad, checked, hit = check_chain_output(o, fs, markers, stmts)
+        for what, msg in bad:
+            print("WRONG:", what, "--", msg[:300])
+        return 1 if bad else 0
     if rep.get("kind") == "front":
         return c16front.replay(rep)
     c = rep["case"]
